@@ -84,6 +84,7 @@ Write(e) ==
       why == (IF NormRep(e.r) # res.r THEN {"reply"} ELSE {}) \cup BoundedWhy(e.tb)
       ok == why = {}
       isdel == c.op = "del" /\ res.r = RInt(1)
+      notif == isdel /\ st.cols[c.k][c.i].s          \* fences concern spatial objects only (fence.go fenceMatch)
       setsdl == c.op \in {"set", "expire"} /\ res.lg # <<>>
       ren == c.op = "rename" /\ res.r = ROk /\ c.k # c.k2
   IN /\ IF ok THEN TRUE ELSE Rej(e, why, res.r)
@@ -91,7 +92,7 @@ Write(e) ==
      /\ cnt' = IF ok THEN Bump("writes") ELSE Bump("rej")
      /\ IF ~ok THEN Same
         ELSE /\ now' = e.te /\ st' = res.S /\ log' = log \o res.lg /\ shadow' = ShFold(shadow, res.lg)
-             /\ dels' = IF isdel THEN AddDel(c.k, c.i) ELSE dels
+             /\ dels' = IF notif THEN AddDel(c.k, c.i) ELSE dels
              /\ gone' = IF isdel THEN [gone EXCEPT ![c.k][c.i] = [t |-> e.te, x |-> FALSE]]
                         ELSE IF ren THEN Moved(gone, c.k, c.k2, [t |-> Never, x |-> FALSE]) ELSE gone
              /\ dur' = IF setsdl THEN [dur EXCEPT ![c.k][c.i] = IF e.ex >= 0 THEN e.ex ELSE 0]
@@ -139,7 +140,7 @@ XDel(e) ==
      /\ cnt' = IF ~ok THEN Bump("rej") ELSE IF o.p THEN Bump("xdels") ELSE Bump("noop")
      /\ IF ~ok \/ ~o.p THEN Same
         ELSE /\ now' = e.t /\ st' = ColDelete(st, e.k, e.i) /\ log' = log \o lg /\ shadow' = ShFold(shadow, lg)
-             /\ dels' = AddDel(e.k, e.i)
+             /\ dels' = IF o.s THEN AddDel(e.k, e.i) ELSE dels
              /\ gone' = [gone EXCEPT ![e.k][e.i] = [t |-> e.t, x |-> TRUE]]
              /\ UNCHANGED <<dur, fdl, fatt>>
 
